@@ -498,6 +498,11 @@ impl Settings {
             return Err(SettingsError::Repeated(id));
         }
 
+        // Setting values are encoded as variable-length integers
+        if VarInt::from_u64(value).is_err() {
+            return Err(SettingsError::InvalidSettingValue(id, value));
+        }
+
         self.entries[self.len] = (id, value);
         self.len += 1;
         Ok(())
